@@ -58,8 +58,12 @@ def call_external(I, name, args, kwargs, node, frame):
     if name in ("threading.Lock", "threading.RLock"):
         return VRef(run.alloc(LockRec(name.split(".")[-1], z3.IntVal(0))), "lock", name.split(".")[-1])
     if name in ("threading.Event", "threading.Thread", "threading.Condition"):
-        return VCallback(name, {"raises": (), "*": {"raises": ()}})
+        return VCallback(name, {"raises": (), "inherit": True})
     if name == "time.sleep":
+        return NONE
+    if name in ("logging.getLogger",):
+        return VCallback("logger", {"raises": (), "returns": "none", "inherit": True})
+    if name.startswith("warnings."):
         return NONE
     if name.startswith("hashlib."):
         alg = name.split(".")[1]
@@ -392,6 +396,8 @@ def call_builtin_method(I, recv, name, args, kwargs, node, frame):
             return VStr(_fn("hexdigest", AnySort, z3.StringSort())(recv.t))
         if recv.tag == "hashobj" and name == "digest":
             return VAny(_fn("digest", AnySort, AnySort)(recv.t))
+        if I.opt("opaque_any_methods"):
+            return I.call_callback(VCallback(f"opaque.{name}", {"raises": ("Exception",), "returns": "any"}), args, kwargs, node, frame)
         h = I.hooks.get("any_method")
         if h:
             r = h(recv, name, args, kwargs, node, frame)
